@@ -785,6 +785,8 @@ pub fn run(args: &Args, out: &mut Out) {
         }
     }
     out.stats.insert("aborting_primitives".into(), (aborting.len() as u64).into());
+    // the model's tables cover the generated table exactly (evaluated by the driver, not the kernel)
+    out.case("coverage", "(coverage (unmodelled) (ghost) (dup) (stray))");
     // whole programs
     for ((name, prog), (class, detail)) in PROGRAMS.iter().zip(results[n_prim..].iter()) {
         out.count(&format!("program-outcome:{}", if is_abort(class) { "abort" } else { class.as_str() }));
@@ -817,8 +819,13 @@ pub fn replay(out: &mut Out, case: &serde_json::Value) {
     let r = run_isolated(&[(flags, prog.clone())]);
     println!("replay {}:\n{}=> {} {}", name, prog, r[0].0, r[0].1);
     if is_abort(&r[0].0) || r[0].0 == "panic" {
+        let fp = match (r[0].0 == "panic", name.strip_prefix("program:")) {
+            (true, Some(pn)) => format!("panic:{}:{}", r[0].1.split(':').next().unwrap_or("?"), pn),
+            (true, None) => format!("panic:{}", name),
+            (false, _) => format!("abort:{}", name),
+        };
         out.oracle_fail(
-            &format!("{}:{}", if r[0].0 == "panic" { "panic" } else { "abort" }, name),
+            &fp,
             &format!("{} kills / panics the host process ({} {})", name, r[0].0, r[0].1),
             case.clone(),
         );
